@@ -8,7 +8,7 @@ ID = 'C19'
 LEAN_TARGETS = ['Properties.C19']
 THEOREMS = ['Dist.C19_numbers', 'Dist.C19_typed_range', 'Dist.C19_typed_zero',
             'Dist.C19_time_zero', 'Dist.C19_time_microseconds', 'Dist.C19_N_datetime_vs_date', 'Dist.C19_dispatch_order',
-            'Dist.C19_item_length_le_count', 'Dist.C19_rough_length_is_hash_count', 'Dist.C19_deep_distance_nested_dicts', 'Dist.C19_deep_distance_positional_lists', 'Dist.C19_deep_distance_positive_nested_dicts', 'Dist.C19_N_deep_distance_exceeds_one',
+            'Dist.C19_item_length_le_count', 'Dist.C19_rough_length_is_hash_count', 'Dist.C19_deep_distance_nested_dicts', 'Dist.C19_deep_distance_positional_lists', 'Dist.C19_deep_distance_positive_nested_dicts', 'Dist.C19_N_deep_distance_exceeds_one', 'Dist.C19_deep_distance_sets', 'Dist.C19_deep_distance_positive_sets', 'Dist.C19_N_set_of_none',
             'Dist.C19_N_uncounted_leaves']
 RULE = ('(a) pairs of ints / short decimals / Decimals (0, negatives, opposite signs, equal values) x maxima: real _get_numbers_distance vs the exact '
         'rational model; (b) datetimes, dates, timedeltas, times; (c) deep_distance of generated nested pairs x ignore_order x view x cutoff, '
@@ -317,7 +317,7 @@ def part_deep_model(ctx):
     pairs += [([1, 2], [1, 2, {'_a': 5}]), ({'a': 1}, {'a': 1, 'b': None}), ([1], [1, []]), ([1, 2, 3, 4], [1, 3, 4, 5, 6]), ([1, 2, 3], ['a', 'b', 'c']), ({'k': {'_p': [1, 2], 'q': 1}}, {'k': 5}),
               ({'new_path': [1, 2]}, {'new_path': [1, 3], 'deep_distance': 'x'}), ({'__x': [1, 2, 3], 'a': 1}, {'__x': [4], 'a': 2}), ({'s': {1, 2}}, {'s': {2, 3, (4, 5)}}),
               # an added and a removed item of one path: folded into values_changed only after the distance was taken
-              (('c', 1, 2, 0, None, '', 'b'), (3, 1, 'c', 2, 0, None, '', 'b')), (['A', 'B', 'C', 'v'], ['p', 'q', 'r', 'v', 'A', 'B', 'C']), ({'k': ['c', 1, 2, 5, 'b']}, {'k': [3, 1, 'c', 2, 5, 'b']})]
+              (('c', 1, 2, 0, None, '', 'b'), (3, 1, 'c', 2, 0, None, '', 'b')), (['A', 'B', 'C', 'v'], ['p', 'q', 'r', 'v', 'A', 'B', 'C']), ({1, 2, 3}, {2, 3, 4, 'a'}), ({None}, set()), (set(), {1}), ({None, 'x', 2.5}, {None, 'y'}), (frozenset({1}), frozenset({2})), ({'k': ['c', 1, 2, 5, 'b']}, {'k': [3, 1, 'c', 2, 5, 'b']})]
     lines, metas = [], []
     for (t1, t2) in pairs:
         if all(isinstance(v, (int, float)) for v in (t1, t2)):
